@@ -257,9 +257,9 @@ func (h *vC10) genPod() *nri.PodSandbox {
 	}
 	switch rng.Intn(6) {
 	case 0:
-		p.Annotations["affinity.resource-policy.nri.io"] = "ctr0: [ ctr1 ]"
+		p.Annotations["resource-policy.nri.io/affinity"] = "ctr0: [ ctr1 ]"
 	case 1:
-		p.Annotations["anti-affinity.resource-policy.nri.io"] = "ctr1:\n- scope:\n    key: pod/name\n    operator: Matches\n    values: [ \"*\" ]\n  match:\n    key: name\n    operator: Equals\n    values: [ ctr0 ]\n  weight: 7\n"
+		p.Annotations["resource-policy.nri.io/anti-affinity"] = "ctr1:\n- scope:\n    key: pod/name\n    operator: Matches\n    values: [ \"*\" ]\n  match:\n    key: name\n    operator: Equals\n    values: [ ctr0 ]\n  weight: 7\n"
 	case 2:
 		p.Annotations["prefer-shared-cpus.resource-policy.nri.io/pod"] = "true"
 	case 3:
@@ -486,6 +486,32 @@ func (h *vC10) reload() {
 		return
 	}
 	n := c2.(*cache)
+	if h.rng.Intn(2) == 0 {
+		// the restarted plugin saves before anybody has looked at the restored policy entries (every InsertPod does),
+		// and restarts once more: what was restored must still be there
+		snap, _ := n.Snapshot()
+		sid := h.content(snap, "snap")
+		if _, have := h.dumps[sid]; !have {
+			if want, ok := h.dumps[mustAtoi(disk)]; ok {
+				h.dumps[sid] = want
+				h.entAt[sid] = vCopyMap(h.entAt[mustAtoi(disk)])
+			} else if disk == "absent" {
+				// nothing was ever saved: the restored cache is empty and so is what it saves
+				h.dumps[sid] = h.dumpWith(&cache{Pods: map[string]*pod{}, Containers: map[string]*container{}, PolicyJSON: map[string]string{}, policyData: map[string]interface{}{}}, map[string]string{})
+				h.entAt[sid] = map[string]string{}
+			}
+		}
+		err := n.Save()
+		fmt.Fprintf(h.w, "S save resave %d %s\n", sid, vErrTok(err))
+		h.files()
+		disk = h.fileTok(filepath.Join(h.dir, "cache"))
+		c3, err := NewCache(Options{CacheDir: h.dir})
+		if err != nil {
+			fmt.Fprintf(h.w, "L err 0 %s %s\n", disk, vOneWordC10(err.Error()))
+			return
+		}
+		n = c3.(*cache)
+	}
 	equal, diff := 0, "-"
 	var id int
 	if _, e := fmt.Sscanf(disk, "%d", &id); e == nil && !strings.HasPrefix(disk, "?") {
@@ -525,6 +551,14 @@ func (h *vC10) reload() {
 		h.entries = map[string]string{}
 	}
 	h.files()
+}
+
+func mustAtoi(s string) int {
+	var id int
+	if _, err := fmt.Sscanf(s, "%d", &id); err != nil || strings.HasPrefix(s, "?") {
+		return -1
+	}
+	return id
 }
 
 func vOneWordC10(s string) string {
